@@ -820,9 +820,66 @@ fn polprint_line(t: &ast::Template, printed: &str, out: &mut Out) {
     out.line(format!("(polprint {b} {})", toks_sx(&ts)), "(same)".into(), format!("polprint {printed}"));
 }
 
+
+/// canonical token list for the `(lex …)` lines: numbers by value (leading zeros stripped)
+fn toks_sx_canon(ts: &[Tok]) -> String {
+    let canon: Vec<Tok> = ts.iter().map(|t| match t {
+        Tok::Num(d) => { let z = d.trim_start_matches('0'); Tok::Num(if z.is_empty() { "0".into() } else { z.to_string() }) }
+        other => other.clone(),
+    }).collect();
+    toks_sx(&canon)
+}
+
+/// lexer correspondence for one policy text:
+///  * `(lex "text")`: the model lexer against the harness tokenizer (token list, or `(lexerr)` for a lexical error);
+///  * `(lexpolparse "id" "text")`: model lexer + model policy parser against the REAL `parse_policy_or_template` on the raw text
+///    (no harness tokenizer in between: this line ties the model lexer to the LALRPOP-generated lexer itself);
+///  * impl-only: a text the harness tokenizer rejects must be rejected by the real parser.
+fn lex_lines(text: &str, id: &PolicyID, tag: &str, out: &mut Out) {
+    if text.len() > 6000 { return; }
+    let hl = lex(text);
+    let imp_lex = match &hl { Ok(ts) => toks_sx_canon(ts), Err(_) => "(lexerr)".to_string() };
+    out.count(if hl.is_ok() { "lex_ok" } else { "lex_err" });
+    out.line(format!("(lex {})", sx::qs(text)), imp_lex, format!("lex[{tag}] {text}"));
+    let res = match catch_unwind(AssertUnwindSafe(|| parser::parse_policy_or_template(Some(id.clone()), text))) {
+        Ok(r) => r.ok(),
+        Err(p) => { out.propfail("panic parsing policy", text, &c02::panic_msg(p)); return; }
+    };
+    if hl.is_err() && res.is_some() { out.propfail("real parser accepts a text with a lexical error (per the harness tokenizer)", text, ""); }
+    let imp = match &res {
+        Some(t) => match crate::c08::body_sx(t) { Some(b) => format!("(ok {b})"), None => { out.count("pol_outside_protocol"); return; } },
+        None => "(none)".to_string(),
+    };
+    out.count(if res.is_some() { "lexpolparse_accept" } else { "lexpolparse_reject" });
+    if res.is_some() { out.nontrivial(&format!("L{imp}")); }
+    out.line(format!("(lexpolparse {} {})", sx::qs(id.as_ref()), sx::qs(text)), imp, format!("lexpolparse[{tag}] {text}"));
+}
+
+const LEX_SEPS: &[&str] = &[" ", " ", "", "", "\n", "\t ", "\r\n", " // c ? \" & \\ \n", "//\n", "//x\r", "\u{a0}", "\u{2003}\u{3000}", "\u{b}\u{c}", " /", "\u{85}"];
+const LEX_BAD: &[&str] = &["\"abc", "\"a\\\nb\"", "?", "? x", "&", "|", "#", "\"\\\"", "'a'", "`", "\u{feff}", "\"a\\", "$x", "~", "^", "a|b", "&&&", "\u{200b}"];
+const LEX_ODD: &[&str] = &["\"a\\\\\"", "\"\\\"\"", "\"\\*\"", "\"a\nb\"", "\"a//b\"", "\"\\u{1F600}\"", "\"\u{e9}\u{1F600}\"", "007", "1a", "a1_", "_", "__cedar", "?principalx", "?_", "?resource", "<==", ">==", "!==", ":::", "=!", "<>", "|| &&", "1.2", "-1", "/ /", "*/"];
+
+/// the text re-rendered from its tokens with random separators (none, blanks of several Unicode kinds, line ends, comments) and,
+/// sometimes, an odd or malformed piece spliced in
+fn lex_noise(text: &str, r: &mut Rng) -> Option<String> {
+    let ts = lex(text).ok()?;
+    let mut o = String::new();
+    let splice = if r.chance(45) { Some(r.below(ts.len() + 1)) } else { None };
+    let bad = r.chance(40);
+    for (i, t) in ts.iter().enumerate() {
+        if splice == Some(i) { o.push_str(*r.pick(if bad { LEX_BAD } else { LEX_ODD })); o.push_str(*r.pick(LEX_SEPS)); }
+        o.push_str(&render(std::slice::from_ref(t)));
+        o.push_str(*r.pick(LEX_SEPS));
+    }
+    if splice == Some(ts.len()) { o.push_str(*r.pick(if bad { LEX_BAD } else { LEX_ODD })); }
+    Some(o)
+}
+
 fn policy_case(cx: &mut Ctx, text: &str, r: &mut Rng, out: &mut Out) {
     out.cases += 1;
     let id = PolicyID::from_string("p\"0\n");
+    lex_lines(text, &id, "raw", out);
+    for _ in 0..2 { if let Some(nt) = lex_noise(text, r) { lex_lines(&nt, &id, "noise", out); } }
     let t = match catch_unwind(AssertUnwindSafe(|| parser::parse_policy_or_template(Some(id.clone()), text))) {
         Ok(Ok(t)) => t,
         Ok(Err(_)) => { out.count("policy_text_rejected"); polparse_line(text, &id, None, "poltext", out); return; }
@@ -844,6 +901,7 @@ fn policy_case(cx: &mut Ctx, text: &str, r: &mut Rng, out: &mut Out) {
         if which == "ast" {
             polprint_line(&t, &p, out);
             polparse_line(&p, &id, Some(&t), "polprinted", out);
+            lex_lines(&p, &id, "display", out);
         }
         out.sample(format!("{text}  ==print({which})==>  {p}"));
         match catch_unwind(AssertUnwindSafe(|| parser::parse_policy_or_template(Some(id.clone()), &p))) {
